@@ -1,0 +1,24 @@
+//go:build verif
+
+package config
+
+import "github.com/jmattheis/goverter/pkgload"
+
+// VerifParseEach parses every raw converter independently on one shared package
+// loader and returns one (converter, error) pair per raw converter, in input order.
+// Verification-only hook (build tag verif): Parse stops at the first failing
+// converter, the correspondence harness needs per-converter outcomes.
+func VerifParseEach(raw *Raw) ([]*Converter, []error, error) {
+	loader, err := pkgload.New(raw.WorkDir, raw.BuildTags, getPackages(raw))
+	if err != nil {
+		return nil, nil, err
+	}
+	ctx := &context{Loader: loader, EnumTransformers: raw.EnumTransformers, WorkDir: raw.WorkDir}
+	converters := make([]*Converter, len(raw.Converters))
+	errs := make([]error, len(raw.Converters))
+	for i := range raw.Converters {
+		rawConverter := raw.Converters[i]
+		converters[i], errs[i] = parseConverter(ctx, &rawConverter, raw.Global)
+	}
+	return converters, errs, nil
+}
